@@ -56,10 +56,11 @@ def serial(now, kind):
     return days + (now.hour * 3600 + now.minute * 60 + now.second + now.microsecond / 1e6) / 86400.0
 
 
-def histories(maxlen):
-    """all sequences over {s, d, e} that end with an evaluation and hold >= 2 evaluations."""
+def histories(maxlen, steps='sde'):
+    """all sequences over {s, d, e} (+ m: 31 days later, y: 365 days later - same day of the month in another month / year)
+    that end with an evaluation and hold >= 2 evaluations."""
     for n in range(2, maxlen + 1):
-        for h in itertools.product('sde', repeat=n):
+        for h in itertools.product(steps, repeat=n):
             if h[-1] == 'e' and h.count('e') >= 2:
                 yield ''.join(h)
 
@@ -128,7 +129,7 @@ def cases(tier):
         for b in ('parser', 'cell'):
             yield ['formula', [p[0], p[1], p[2]], b]
     for kind in VOL:
-        for b in ('dict', 'file', 'deepcopy', 'json', 'compile-up', 'compile-down', 'compile-unrelated', 'array', 'array2d-file', 'name', 'vname', 'vname-file', 'vname-json'):
+        for b in ('dict', 'file', 'deepcopy', 'json', 'compile-up', 'compile-down', 'compile-unrelated', 'array', 'array2d-file', 'name', 'vname', 'vname-file', 'vname-json', 'namevol', 'namevol-file', 'namevol-json', 'namevol-compile'):
             yield ['workbook', kind, b]
     for i in range(len(RB_ARGS)):
         for b in ('parser', 'cell'):
@@ -259,6 +260,12 @@ def run_workbook(case):
         d[P + 'M1:N2'] = '=%s+{0,0;0,0}' % VOL[kind]
         d[P + 'A1'] = '=%sN2' % P
         d[P + 'C1'] = '=%sM1*2' % P
+    if builder.startswith('namevol'):
+        # the formula that holds the volatile call also refers to a defined name (of a cell / of a range)
+        d = dict(d)
+        d["'[b.xlsx]'!KNAME"] = '=%sK1' % P
+        d["'[b.xlsx]'!KRNG"] = '=%sK1:K2' % P
+        d[P + 'A1'] = "=%s+0*'[b.xlsx]'!KNAME+0*SUM('[b.xlsx]'!KRNG)" % VOL[kind]
     if builder == 'name':
         d = dict(d)
         d["'[b.xlsx]'!VNAME"] = '=%sA1' % P
@@ -280,7 +287,7 @@ def run_workbook(case):
         builder = chain[0]
         chain = chain[1:]
     try:
-        if builder in ('file', 'vname-file', 'array2d-file'):
+        if builder in ('file', 'vname-file', 'array2d-file', 'namevol-file'):
             import openpyxl
             wb = openpyxl.Workbook()
             ws = wb.active
@@ -306,7 +313,7 @@ def run_workbook(case):
         if builder == 'deepcopy':
             m.calculate()
             m = copy.deepcopy(m)
-        if builder in ('json', 'vname-json'):
+        if builder in ('json', 'vname-json', 'namevol-json'):
             m = formulas.ExcelModel().from_dict(json.loads(json.dumps(m.to_dict())))
         for t in chain or ():
             if t == 'deepcopy':
@@ -326,6 +333,8 @@ def run_workbook(case):
             elif use.endswith('+fdill'):
                 import dill
                 fpost = lambda f: dill.loads(dill.dumps(f))
+        if builder == 'namevol-compile':
+            builder = 'compile-up'
         if builder == 'compile-up':           # volatile upstream of the outputs, input unrelated constant
             f = fpost(m.compile([K1], [A1, B1, C1, D1]))
             ev = lambda: dict(zip(['A1', 'B1', 'C1', 'D1'], f(5)))
@@ -342,7 +351,9 @@ def run_workbook(case):
 
     def val(x):
         return classify(np.asarray(getattr(x, 'value', x), object).ravel()[0])
-    for start, h in [(T0, h) for h in histories(4)] + ([(T1, h) for h in histories(4)] if kind in ('NOW', 'TODAY') else []):
+    clocky = kind in ('NOW', 'TODAY')
+    steps = 'sdmye' if clocky and chain is None else 'sde'          # the plain builders also step to the same day number of another month / year
+    for start, h in [(T0, h) for h in histories(4, steps)] + ([(T1, h) for h in histories(4)] if clocky else []):
         Clock.now = _dt.datetime(*start)
         np.random.seed(777)
         twin = np.random.RandomState(777)
@@ -352,6 +363,10 @@ def run_workbook(case):
                 Clock.now += _dt.timedelta(seconds=1)
             elif step == 'd':
                 Clock.now += _dt.timedelta(days=1)
+            elif step == 'm':
+                Clock.now += _dt.timedelta(days=31)
+            elif step == 'y':
+                Clock.now += _dt.timedelta(days=365)
             else:
                 ex += 1
                 pos0 = np.random.get_state()[2]
